@@ -35,7 +35,13 @@
 //!    well above linear, or far above the ordinary object, each with an
 //!    absolute margin) are the decoding entry points; what is done with the
 //!    decoded value is held to panic-freedom and to returning, its growth is
-//!    recorded in the evidence;
+//!    recorded in the evidence; an accessor the property names that needs
+//!    20x and a second more than on the ordinary object of the same size has
+//!    not returned in any time commensurate with its input (accessor_runaway).
+//!    Crafted families include, for every keyed collection (CRL serials,
+//!    manifest names and hashes, ASPA providers, ROA prefixes, certificate
+//!    resource entries), keys that agree in their low / high k octets, in all
+//!    but every k-th octet, in the middle, or under word-wise XOR / sum;
 //!  * rta.validation.matrix — fresh RTAs over chains of depth 0..3 with every
 //!    inherit / blocks / absent combination per family and certificate, issuers
 //!    embedded or supplied, overclaim policies, one or two signers; after
@@ -1911,6 +1917,33 @@ const TM_GROWTH: u64 = 10;
 /// `t_crafted(n) > TM_VS_CONTROL * t_control(n)`.
 const TM_VS_CONTROL: u64 = 20;
 
+/// An accessor of a decoded value "runs away" when it takes more than TM_VS_CONTROL times as long as the same
+/// call on the ordinary object of the same size and count AND more than this much CPU time longer (or, on
+/// either object: well above linear from the quarter-size object and more than this much above linear).
+/// One second of CPU time for an input of a few megabytes that an ordinary object of that very size handles in
+/// milliseconds is not "slower", it is the call not coming back in any time commensurate with the input.
+/// CPU time of the calling thread does not include waiting for a core; what load does to it (shared caches,
+/// memory bandwidth, clock) was measured at 1-4x with 48 busy processes on 16 cores, never near 20x, and
+/// 20x of the few milliseconds these calls take stays two orders of magnitude below the second.
+const TM_RUNAWAY_NS: u64 = 1_000_000_000;
+
+/// What the property says about a measured operation.
+#[derive(Clone, Copy, Debug, PartialEq, Eq)]
+enum TmRole {
+    /// a decoding entry point: time within a fixed multiple of the input (growth and same-size control, TM_MARGIN_NS)
+    Decode,
+    /// an accessor / iterator / lookup / re-encoding of the decoded value: must not panic and must come back (TM_RUNAWAY_NS)
+    Accessor,
+    /// validation against an issuer, builders, text and set operations: measured and recorded
+    Other,
+}
+fn tm_role(case: TmCase, pos: usize, name: &str) -> TmRole {
+    if !case.judged() { return TmRole::Other }
+    if pos == 0 || name == "ProvisioningCms::decode" { return TmRole::Decode }
+    if ["validate", "process", "Validation", "RtaBuilder"].iter().any(|w| name.contains(w)) { return TmRole::Other }
+    TmRole::Accessor
+}
+
 /// CPU time consumed by the calling thread so far (not wall time: a busy machine cannot inflate it).
 fn cpu_ns() -> u64 {
     let mut ts = libc::timespec { tv_sec: 0, tv_nsec: 0 };
@@ -1925,7 +1958,9 @@ type TmOps = Vec<(&'static str, Result<u64, String>)>;
 const TM_BUDGET_NS: u64 = 2_000_000_000;
 thread_local! { static TM_SPENT: Cell<u64> = const { Cell::new(0) }; }
 
-/// Best CPU time of up to three runs (one run only if it takes more than 20 ms).
+/// Best CPU time of up to three runs (one run only if it takes more than 20 ms - unless it takes more than
+/// TM_RUNAWAY_NS: a call can only be found to have run away above that, and such a finding must not rest on
+/// one measurement, so it is the best of three again).
 fn tm_measure(out: &mut TmOps, name: &'static str, mut f: impl FnMut()) {
     if TM_SPENT.with(|s| s.get()) > TM_BUDGET_NS { return }
     let mut best = u64::MAX;
@@ -1936,7 +1971,7 @@ fn tm_measure(out: &mut TmOps, name: &'static str, mut f: impl FnMut()) {
         TM_SPENT.with(|s| s.set(s.get() + d));
         if let Err(p) = r { out.push((name, Err(p))); return }
         best = best.min(d);
-        if d > 20_000_000 { break }
+        if d > 20_000_000 && d <= TM_RUNAWAY_NS { break }
     }
     out.push((name, Ok(best)));
 }
@@ -2042,11 +2077,30 @@ fn tm_cert(env: &Env, order: Order, n: usize, ee: bool, fams: &[Fam]) -> Vec<u8>
     let spec = if ee { spec_with(Spec::issued(pki::Kind::Ee, 2, 1, s.ski(1), small, Overclaim::Refuse), 7000 + n as u128) }
                else { spec_with(Spec::issued(pki::Kind::Ca, 3, 0, s.ski(0), small, Overclaim::Refuse), 7000 + n as u128) };
     let tbs = bcder::Captured::from_values(Mode::Der, pki::build_tbs(s, &spec, None).encode_ref()).as_slice().to_vec();
-    let fam_body = |fam: Fam| der::seq(&[der::octets(if fam == Fam::V4 { &[0, 1] } else { &[0, 2] }), if fams.contains(&fam) { tm_blocks_der(fam, order, n) } else { tm_blocks_der(fam, Order::Asc, 1) }]);
-    let ip = der::seq(&[fam_body(Fam::V4), fam_body(Fam::V6)]);
-    let asn = der::seq(&[der::ctx(0, true, &if fams.contains(&Fam::As) { tm_blocks_der(Fam::As, order, n) } else if ee { der::seq(&[der::int_u(64496)]) } else { tm_blocks_der(Fam::As, Order::Asc, 1) })]);
-    let tbs = der_replace_ext(&der_replace_ext(&tbs, OID_IP_BLOCKS, &ip), OID_AS_IDS, &asn);
-    pki::sign_tbs(s, if ee { 1 } else { 0 }, &tbs)
+    let list = |fam: Fam| if fams.contains(&fam) { tm_blocks_der(fam, order, n) } else if ee && fam == Fam::As { der::seq(&[der::int_u(64496)]) } else { tm_blocks_der(fam, Order::Asc, 1) };
+    tm_cert_finish(env, &tbs, ee, [list(Fam::V4), list(Fam::V6), list(Fam::As)])
+}
+/// Puts the three lists (each the DER SEQUENCE OF its family: v4, v6, AS) into the two resource extensions of a TBS and signs it.
+fn tm_cert_finish(env: &Env, tbs: &[u8], ee: bool, lists: [Vec<u8>; 3]) -> Vec<u8> {
+    let [v4, v6, asl] = lists;
+    let ip = der::seq(&[der::seq(&[der::octets(&[0, 1]), v4]), der::seq(&[der::octets(&[0, 2]), v6])]);
+    let asn = der::seq(&[der::ctx(0, true, &asl)]);
+    let tbs = der_replace_ext(&der_replace_ext(tbs, OID_IP_BLOCKS, &ip), OID_AS_IDS, &asn);
+    pki::sign_tbs(&env.signer, if ee { 1 } else { 0 }, &tbs)
+}
+/// The n keys of a family as resource entries of a CA certificate: ascending single addresses (/32, /128) or AS numbers,
+/// no two of them neighbours (the counter is even). `None`: n consecutive even ones.
+fn tm_cert_keys(env: &Env, fam: Fam, kf: Option<KeyFam>, n: usize) -> Vec<u8> {
+    let s = &env.signer;
+    let small = Res { v4: Claim::Blocks(vec![(0x0a00_0000, 0x0a00_00ff)]), v6: Claim::Blocks(vec![(0x2001_0db8u128 << 96, (0x2001_0db8u128 << 96) | 0xff)]), asn: Claim::Blocks(vec![(100_000, 100_000)]) };
+    let spec = spec_with(Spec::issued(pki::Kind::Ca, 3, 0, s.ski(0), small, Overclaim::Refuse), 9000 + n as u128);
+    let tbs = bcder::Captured::from_values(Mode::Der, pki::build_tbs(s, &spec, None).encode_ref()).as_slice().to_vec();
+    let (base, free) = (key_base(fam), key_dims(fam).1);
+    let mut keys: Vec<u128> = (0..n as u32).map(|k| match kf { Some(kf) => key_value(&kf.make(&base, free, 2 * k + 2)), None => key_value(&base) + if fam == Fam::As { 0x0100_0000 } else { 0 } + 2 * k as u128 + 2 }).collect();
+    keys.sort_unstable();
+    let list = |f: Fam| if f != fam { tm_blocks_der(f, Order::Asc, 1) } else { der::seq(&keys.iter().map(|&x| match f {
+        Fam::V4 => der::ip_prefix_bits(x, 32, 32), Fam::V6 => der::ip_prefix_bits(x, 128, 128), Fam::As => der::int_u(x) }).collect::<Vec<_>>()) };
+    tm_cert_finish(env, &tbs, false, [list(Fam::V4), list(Fam::V6), list(Fam::As)])
 }
 
 /// RTA attestation content with n blocks per family in the given order (independent encoder).
@@ -2077,15 +2131,114 @@ fn tm_crl_tbs(env: &Env, key: usize, serials: &[[u8; 20]]) -> Vec<u8> {
 /// Serial number k of a family: `Window(off, fill)` = 20 octets, all `fill` except octet 0 (= 01)
 /// and a four-octet counter at `off`; `Ordinary` = the first 20 octets of SHA-256(k), made positive.
 #[derive(Clone, Copy, Debug, PartialEq, Eq)]
-enum SerialFam { Ordinary, Window(usize, u8) }
+enum SerialFam { Ordinary, Window(usize, u8), Key(KeyFam, u8) }
 fn tm_serial(f: SerialFam, k: u32) -> [u8; 20] {
     let mut s = [0u8; 20];
     match f {
         SerialFam::Ordinary => { s.copy_from_slice(&signer::sha256(&k.to_be_bytes())[..20]); s[0] = (s[0] & 0x3f) | 0x40; }
         SerialFam::Window(off, fill) => { s = [fill; 20]; s[0] = 1; s[off..off + 4].copy_from_slice(&k.to_be_bytes()); }
+        SerialFam::Key(kf, fill) => { let mut base = [fill; 20]; base[0] = 1; s.copy_from_slice(&kf.make(&base, 1, k)); }
     }
     s
 }
+
+/// A family of keys (serial numbers, file names, hashes, addresses, AS numbers) of one length that are
+/// pairwise different but **agree in a chosen set of octets**: whatever indexes, hashes or compares the keys
+/// by looking at those octets only (the low k, the high k, every k-th one, a window in the middle, a word-wise
+/// XOR or sum) sees one and the same value for all of them. Position 0 is the most significant octet; the
+/// first `free` octets of a key are fixed by the collection (sign octet of a serial number, the prefix the
+/// EE certificate covers) and never vary. The counter is spread bit by bit over all varying positions, so
+/// that every one of them really differs between keys.
+#[derive(Clone, Copy, Debug, PartialEq, Eq)]
+enum KeyFam {
+    /// agree in the k least significant octets, differ in every octet above them
+    LowAgree(u8),
+    /// agree in the k most significant octets, differ in every octet below them
+    HighAgree(u8),
+    /// differ only in the octets at positions p with p % k == r
+    Stride(u8, u8),
+    /// agree in the middle: differ only in the two outermost octets at either end
+    Outer,
+    /// the counter stands at offsets a and b (up to four octets each), the second time as it is (false) or
+    /// negated modulo its width (true): a word-wise XOR or sum of the key is the same for all keys
+    Mirror(u8, u8, bool),
+}
+impl KeyFam {
+    fn name(self) -> String {
+        match self {
+            KeyFam::LowAgree(k) => format!("agree-in-low-{k}-octets"),
+            KeyFam::HighAgree(k) => format!("agree-in-high-{k}-octets"),
+            KeyFam::Stride(k, r) => format!("differ-only-in-octets-{r}-mod-{k}"),
+            KeyFam::Outer => "agree-in-the-middle".into(),
+            KeyFam::Mirror(a, b, neg) => format!("counter-at-{a}-and-{}-at-{b}", if neg { "negated" } else { "again" }),
+        }
+    }
+    fn mirror_width(a: usize, b: usize, len: usize) -> usize { 4.min(b.saturating_sub(a)).min(len.saturating_sub(b)) }
+    /// The positions in which the keys of the family differ.
+    fn positions(self, len: usize, free: usize) -> Vec<usize> {
+        let mut v: Vec<usize> = match self {
+            KeyFam::LowAgree(k) => (free..len.saturating_sub(k as usize)).collect(),
+            KeyFam::HighAgree(k) => (free.max(k as usize)..len).collect(),
+            KeyFam::Stride(k, r) => (free..len).filter(|p| p % k as usize == r as usize).collect(),
+            KeyFam::Outer => vec![free, free + 1, len - 2, len - 1],
+            KeyFam::Mirror(a, b, _) => { let w = Self::mirror_width(a as usize, b as usize, len); (a as usize..a as usize + w).chain(b as usize..b as usize + w).collect() }
+        };
+        v.retain(|p| *p >= free && *p < len); v.sort(); v.dedup();
+        v
+    }
+    /// log2 of the number of distinct keys the family can hold (at most 32: the counter is a u32).
+    fn bits(self, len: usize, free: usize) -> u32 {
+        match self {
+            KeyFam::Mirror(a, b, _) => 8 * Self::mirror_width(a as usize, b as usize, len) as u32,
+            _ => (8 * self.positions(len, free).len() as u32).min(32),
+        }
+    }
+    /// Key number `c` of the family: `base` with the varying positions overwritten.
+    fn make(self, base: &[u8], free: usize, c: u32) -> Vec<u8> {
+        let len = base.len();
+        let mut key = base.to_vec();
+        match self {
+            KeyFam::Mirror(a, b, neg) => {
+                let (a, b) = (a as usize, b as usize);
+                let w = Self::mirror_width(a, b, len);
+                let mask: u64 = if w >= 4 { 0xffff_ffff } else { (1u64 << (8 * w)) - 1 };
+                let first = c as u64 & mask;
+                let second = if neg { (mask + 1 - first) & mask } else { first };
+                for i in 0..w { key[a + i] = (first >> (8 * (w - 1 - i))) as u8; key[b + i] = (second >> (8 * (w - 1 - i))) as u8; }
+            }
+            _ => {
+                let pos = self.positions(len, free);
+                let m = pos.len();
+                for p in &pos { key[*p] = 0 }
+                if m > 0 { for j in 0..32usize { if (c >> j) & 1 == 1 && j / m < 8 { key[pos[m - 1 - j % m]] |= 1 << (j / m) } } }
+            }
+        }
+        key
+    }
+    /// The families for keys of `len` octets of which the first `free` are fixed.
+    fn menu(len: usize, free: usize) -> Vec<KeyFam> {
+        let mut v = Vec::new();
+        let span = len - free;
+        // agree in the low / high k octets, for a ladder of k that leaves at least two octets to differ in
+        for k in [1usize, 2, 4, 8, 12, 16, 24, 28] { if k + 2 <= span { v.push(KeyFam::LowAgree(k as u8)) } }
+        for k in [1usize, 2, 4, 8, 12, 16, 17, 24, 28] { if k > free && k + 2 <= len && (k + 3 <= len || span <= 4) { v.push(KeyFam::HighAgree(k as u8)) } }
+        // every k-th octet, every residue that leaves at least two (beyond four octets: three) positions
+        for k in [2usize, 3, 4, 8] { for r in 0..k { let m = (free..len).filter(|p| p % k == r).count(); if k < span && m >= if span <= 4 { 2 } else { 3 } && m < span { v.push(KeyFam::Stride(k as u8, r as u8)) } } }
+        if span >= 8 { v.push(KeyFam::Outer) }
+        // the counter twice, one / two / three words apart
+        if span >= 8 {
+            let w0 = free.div_ceil(4) * 4;
+            let mut pairs = vec![(w0, w0 + 4), (w0, w0 + 8), (len - 8, len - 4), (free, free + 8)];
+            if len >= w0 + 16 { pairs.push((w0 + 4, w0 + 12)); pairs.push((w0, w0 + 12)); }
+            pairs.retain(|(a, b)| b + 4 <= len && *a >= free); pairs.sort(); pairs.dedup();
+            for (a, b) in pairs { for neg in [false, true] { v.push(KeyFam::Mirror(a as u8, b as u8, neg)) } }
+        } else if span == 4 && free == 0 {
+            for neg in [false, true] { v.push(KeyFam::Mirror(0, 2, neg)) }
+        }
+        v
+    }
+}
+fn hex_lower(b: &[u8]) -> String { b.iter().map(|x| format!("{x:02x}")).collect() }
 
 #[derive(Clone, Copy, Debug, PartialEq, Eq)]
 enum Route { Text, Der, FromIter, Builder, Serde }
@@ -2098,11 +2251,13 @@ enum Rel { Halves, Interleaved, Identical, Nested, OneCovering }
 impl Rel { fn name(self) -> &'static str { match self { Rel::Halves => "disjoint-halves", Rel::Interleaved => "interleaved", Rel::Identical => "identical", Rel::Nested => "b-inside-every-block-of-a", Rel::OneCovering => "b-is-one-covering-block" } } }
 
 #[derive(Clone, Copy, Debug, PartialEq, Eq)]
-enum MftShape { Ordinary, CommonPrefix, CommonSuffix, SameNames, SameHashes }
+enum MftShape { Ordinary, CommonPrefix, CommonSuffix, SameNames, SameHashes, NameKey(KeyFam), HashKey(KeyFam) }
 #[derive(Clone, Copy, Debug, PartialEq, Eq)]
-enum AspaShape { Ordinary, Shift16, Shift8, Consecutive, Descending, LowWindow }
+enum AspaShape { Ordinary, Shift16, Shift8, Consecutive, Descending, LowWindow, /// four-octet providers that are the keys of a family (None: every third number from 2^24, the ordinary object)
+    Key(Option<KeyFam>) }
 #[derive(Clone, Copy, Debug, PartialEq, Eq)]
-enum RoaShape { Ordinary, Desc, Zigzag, Same, SameAddrAllLengths, UnderManyBlocks }
+enum RoaShape { Ordinary, Desc, Zigzag, Same, SameAddrAllLengths, UnderManyBlocks, /// host prefixes that are the keys of a family (None: consecutive hosts, the ordinary object)
+    Key(Option<KeyFam>) }
 
 #[derive(Clone, Copy, Debug, PartialEq, Eq)]
 enum TmCase {
@@ -2115,7 +2270,21 @@ enum TmCase {
     Tal(TalShape),
     /// a signed protocol message whose embedded CRL lists n serial numbers
     Sig(SerialFam),
+    /// a certificate one of whose resource extensions lists n single addresses / AS numbers that are the
+    /// keys of a family (None: n consecutive even ones, the ordinary object)
+    CertKeys(Fam, Option<KeyFam>),
 }
+
+/// (length of a key in octets, leading octets that are fixed) of the keyed collections.
+const KEY_SERIAL: (usize, usize) = (20, 1);
+const KEY_MFT_NAME: (usize, usize) = (16, 0);
+const KEY_MFT_HASH: (usize, usize) = (32, 0);
+const KEY_ASN: (usize, usize) = (4, 0);
+fn key_dims_ip(fam: Fam) -> (usize, usize) { if fam == Fam::V4 { (4, 1) } else { (16, 4) } }
+fn key_dims(fam: Fam) -> (usize, usize) { if fam == Fam::As { KEY_ASN } else { key_dims_ip(fam) } }
+/// The fixed part of an address key: 10.0.0.0 / 2001:db8:: (what the EE certificate of the fixtures covers); AS numbers have none.
+fn key_base(fam: Fam) -> Vec<u8> { match fam { Fam::V4 => vec![10, 0, 0, 0], Fam::V6 => { let mut b = vec![0u8; 16]; b[..4].copy_from_slice(&[0x20, 0x01, 0x0d, 0xb8]); b } Fam::As => vec![0; 4] } }
+fn key_value(b: &[u8]) -> u128 { b.iter().fold(0u128, |a, x| (a << 8) | *x as u128) }
 
 #[derive(Clone, Copy, Debug, PartialEq, Eq)]
 enum TalShape { Ordinary, AlternatingSchemes, Comments, CrLf, LongLines, KeyInShortLines }
@@ -2125,7 +2294,7 @@ impl TmCase {
         match self {
             TmCase::Blocks(Fam::As, ..) | TmCase::SetText(_) | TmCase::SetOps(Fam::As, _) => Ep::AsText,
             TmCase::Blocks(..) | TmCase::SetOps(..) => Ep::IpText,
-            TmCase::Cert(_) => Ep::Cert, TmCase::Rta(_) => Ep::RtaS, TmCase::Crl(_) => Ep::Crl,
+            TmCase::Cert(_) | TmCase::CertKeys(..) => Ep::Cert, TmCase::Rta(_) => Ep::RtaS, TmCase::Crl(_) => Ep::Crl,
             TmCase::Mft(_) => Ep::MftS, TmCase::Aspa(_) => Ep::AspaS, TmCase::Roa(..) => Ep::RoaS,
             TmCase::Tal(_) => Ep::Tal, TmCase::Sig(_) => Ep::SigS,
         }
@@ -2138,12 +2307,22 @@ impl TmCase {
             TmCase::Cert(o) => format!("cert/three-extensions/{}", o.name()),
             TmCase::Rta(o) => format!("rta/attested-resources/{}", o.name()),
             TmCase::Crl(SerialFam::Window(off, fill)) => format!("crl/serials-equal-but-octets-{}..{}/fill-{:02x}", off, off + 4, fill),
+            TmCase::Crl(SerialFam::Key(kf, fill)) => format!("crl/serials-{}/fill-{:02x}", kf.name(), fill),
             TmCase::Crl(SerialFam::Ordinary) => "crl/ordinary".into(),
+            TmCase::Mft(MftShape::NameKey(kf)) => format!("mft/names-{}", kf.name()),
+            TmCase::Mft(MftShape::HashKey(kf)) => format!("mft/hashes-{}", kf.name()),
             TmCase::Mft(s) => format!("mft/{s:?}"),
+            TmCase::Aspa(AspaShape::Key(Some(kf))) => format!("aspa/providers-{}", kf.name()),
+            TmCase::Aspa(AspaShape::Key(None)) => "aspa/providers-four-octets-every-third".into(),
             TmCase::Aspa(s) => format!("aspa/{s:?}"),
+            TmCase::Roa(f, RoaShape::Key(Some(kf))) => format!("roa/{}/host-prefixes-{}", f.name(), kf.name()),
+            TmCase::Roa(f, RoaShape::Key(None)) => format!("roa/{}/host-prefixes-consecutive", f.name()),
             TmCase::Roa(f, s) => format!("roa/{}/{s:?}", f.name()),
+            TmCase::CertKeys(f, Some(kf)) => format!("cert/{}-single-entries-{}", f.name(), kf.name()),
+            TmCase::CertKeys(f, None) => format!("cert/{}-single-entries-consecutive", f.name()),
             TmCase::Tal(s) => format!("tal/{s:?}"),
             TmCase::Sig(SerialFam::Window(off, fill)) => format!("sigmsg/crl-serials-equal-but-octets-{}..{}/fill-{:02x}", off, off + 4, fill),
+            TmCase::Sig(SerialFam::Key(kf, fill)) => format!("sigmsg/crl-serials-{}/fill-{:02x}", kf.name(), fill),
             TmCase::Sig(SerialFam::Ordinary) => "sigmsg/ordinary".into(),
         }
     }
@@ -2156,25 +2335,48 @@ impl TmCase {
             TmCase::SetText(_) => TmCase::SetText(Order::Asc),
             TmCase::SetOps(f, _) => TmCase::SetOps(f, Rel::Halves),
             TmCase::Cert(_) => TmCase::Cert(Order::Asc), TmCase::Rta(_) => TmCase::Rta(Order::Asc),
+            TmCase::CertKeys(f, _) => TmCase::CertKeys(f, None),
             TmCase::Crl(_) => TmCase::Crl(SerialFam::Ordinary),
+            TmCase::Aspa(AspaShape::Key(_)) => TmCase::Aspa(AspaShape::Key(None)),
+            TmCase::Roa(f, RoaShape::Key(_)) => TmCase::Roa(f, RoaShape::Key(None)),
             TmCase::Mft(_) => TmCase::Mft(MftShape::Ordinary), TmCase::Aspa(_) => TmCase::Aspa(AspaShape::Ordinary),
             TmCase::Roa(f, _) => TmCase::Roa(f, RoaShape::Ordinary),
             TmCase::Tal(_) => TmCase::Tal(TalShape::Ordinary), TmCase::Sig(_) => TmCase::Sig(SerialFam::Ordinary),
         }
     }
+    /// For the key families: (family, key length, fixed octets, counters used per element).
+    fn key_dims(self) -> Option<(KeyFam, usize, usize, u64)> {
+        match self {
+            TmCase::Crl(SerialFam::Key(kf, _)) | TmCase::Sig(SerialFam::Key(kf, _)) => Some((kf, KEY_SERIAL.0, KEY_SERIAL.1, 2)),
+            TmCase::Mft(MftShape::NameKey(kf)) => Some((kf, KEY_MFT_NAME.0, KEY_MFT_NAME.1, 1)),
+            TmCase::Mft(MftShape::HashKey(kf)) => Some((kf, KEY_MFT_HASH.0, KEY_MFT_HASH.1, 1)),
+            TmCase::Aspa(AspaShape::Key(Some(kf))) => Some((kf, KEY_ASN.0, KEY_ASN.1, 1)),
+            TmCase::Roa(f, RoaShape::Key(Some(kf))) => { let (l, fr) = key_dims_ip(f); Some((kf, l, fr, 1)) }
+            TmCase::CertKeys(f, Some(kf)) => { let (l, fr) = key_dims(f); Some((kf, l, fr, 2)) }
+            _ => None,
+        }
+    }
     fn sizes(self, thorough: bool) -> Vec<usize> {
+        let mut v = self.ladder(thorough);
+        // a family holds 2^bits keys: the ladder ends where it runs out of them
+        if let Some((kf, len, free, per)) = self.key_dims() { let cap = 1u64 << kf.bits(len, free); v.retain(|&n| n as u64 * per + 2 <= cap) }
+        v
+    }
+    fn ladder(self, thorough: bool) -> Vec<usize> {
         match self {
             TmCase::Crl(_) => if thorough { vec![1024, 4096, 16384, 65536, 262144] } else { vec![1024, 4096, 16384, 65536] },
             TmCase::Aspa(_) => vec![1023, 4095, 16380],
             TmCase::Roa(_, RoaShape::UnderManyBlocks) => vec![1024, 4096, 16384, 32768],
+            // (an accessor that has run away by a second needs some 10^9 steps: one rung more where the keys allow it)
+            TmCase::Roa(f, RoaShape::Key(kf)) => if thorough || (f == Fam::V6 && matches!(kf, Some(KeyFam::LowAgree(8) | KeyFam::HighAgree(8) | KeyFam::Stride(2, 1) | KeyFam::Mirror(4, 12, false)))) { vec![1024, 4096, 16384, 65536] } else { vec![1024, 4096, 16384] },
             TmCase::Roa(..) => vec![1024, 4096, 16384],
             _ => if thorough { vec![1024, 4096, 16384, 65536] } else { vec![1024, 4096, 16384] },
         }
     }
 }
 
-/// All crafted cases, in a fixed order.
-fn tm_cases() -> Vec<TmCase> {
+/// All crafted cases, in a fixed order (the quick tier's list is the beginning of the thorough tier's).
+fn tm_cases(thorough: bool) -> Vec<TmCase> {
     let mut v = Vec::new();
     for fam in [Fam::V4, Fam::V6, Fam::As] { for r in ROUTES { for o in ORDERS_CRAFTED { v.push(TmCase::Blocks(fam, r, o)) } } }
     for o in ORDERS_CRAFTED { v.push(TmCase::SetText(o)); v.push(TmCase::Cert(o)); v.push(TmCase::Rta(o)) }
@@ -2185,6 +2387,32 @@ fn tm_cases() -> Vec<TmCase> {
     for f in [Fam::V4, Fam::V6] { for s in [RoaShape::Desc, RoaShape::Zigzag, RoaShape::Same, RoaShape::SameAddrAllLengths, RoaShape::UnderManyBlocks] { v.push(TmCase::Roa(f, s)) } }
     for s in [TalShape::AlternatingSchemes, TalShape::Comments, TalShape::CrLf, TalShape::LongLines, TalShape::KeyInShortLines] { v.push(TmCase::Tal(s)) }
     for (off, fill) in [(1usize, 0u8), (8, 0), (16, 0xa5)] { v.push(TmCase::Sig(SerialFam::Window(off, fill))) }
+    // the key families (appended: the indices of the cases above stay what they were)
+    // (the three largest menus are thinned in the quick tier - every kind of family stays, on a coarser ladder of k - and completed at the end of the thorough list)
+    let thin_serial = |kf: KeyFam| match kf { KeyFam::LowAgree(k) => matches!(k, 8 | 16), KeyFam::HighAgree(k) => matches!(k, 8 | 17), KeyFam::Stride(k, r) => k <= 3 || (k == 4 && r <= 1), KeyFam::Outer => true,
+        KeyFam::Mirror(a, b, neg) => if neg { (a, b) == (4, 12) } else { matches!((a, b), (4, 8) | (4, 12) | (1, 9) | (12, 16)) } };
+    let thin_name = |kf: KeyFam| match kf { KeyFam::LowAgree(k) | KeyFam::HighAgree(k) => matches!(k, 4 | 12), KeyFam::Stride(k, r) => k <= 3 || r % 2 == 0, KeyFam::Outer => true,
+        KeyFam::Mirror(a, b, neg) => if neg { (a, b) == (0, 8) } else { matches!((a, b), (0, 4) | (0, 8) | (8, 12)) } };
+    let thin_hash = |kf: KeyFam| match kf { KeyFam::LowAgree(k) | KeyFam::HighAgree(k) => matches!(k, 8 | 24), KeyFam::Stride(k, r) => k == 2 || matches!(r, 0 | 3 | 5), KeyFam::Outer => true, KeyFam::Mirror(a, b, _) => matches!((a, b), (0, 8) | (24, 28)) };
+    for (i, kf) in KeyFam::menu(KEY_SERIAL.0, KEY_SERIAL.1).into_iter().enumerate() { if thin_serial(kf) { v.push(TmCase::Crl(SerialFam::Key(kf, if i % 2 == 0 { 0x00 } else { 0xa5 }))) } }
+    for kf in [KeyFam::LowAgree(8), KeyFam::HighAgree(8), KeyFam::Stride(2, 1), KeyFam::Outer, KeyFam::Mirror(4, 12, false)] { v.push(TmCase::Sig(SerialFam::Key(kf, 0x00))) }
+    for kf in KeyFam::menu(KEY_MFT_NAME.0, KEY_MFT_NAME.1) { if thin_name(kf) { v.push(TmCase::Mft(MftShape::NameKey(kf))) } }
+    for kf in KeyFam::menu(KEY_MFT_HASH.0, KEY_MFT_HASH.1) {
+        // 32 octets: a thinner ladder of k, and the counter repeated as it is only
+        let keep = match kf { KeyFam::LowAgree(k) | KeyFam::HighAgree(k) => [8, 16, 24].contains(&k), KeyFam::Stride(k, _) => k == 2 || k == 8, KeyFam::Mirror(_, _, neg) => !neg, KeyFam::Outer => true };
+        if keep && thin_hash(kf) { v.push(TmCase::Mft(MftShape::HashKey(kf))) }
+    }
+    for kf in KeyFam::menu(KEY_ASN.0, KEY_ASN.1) { v.push(TmCase::Aspa(AspaShape::Key(Some(kf)))) }
+    for f in [Fam::V4, Fam::V6] { let (l, fr) = key_dims_ip(f); for kf in KeyFam::menu(l, fr) { v.push(TmCase::Roa(f, RoaShape::Key(Some(kf)))) } }
+    for f in [Fam::V4, Fam::V6, Fam::As] { let (l, fr) = key_dims(f); for kf in KeyFam::menu(l, fr) { v.push(TmCase::CertKeys(f, Some(kf))) } }
+    if thorough {
+        for (i, kf) in KeyFam::menu(KEY_SERIAL.0, KEY_SERIAL.1).into_iter().enumerate() { if !thin_serial(kf) { v.push(TmCase::Crl(SerialFam::Key(kf, if i % 2 == 0 { 0x00 } else { 0xa5 }))) } }
+        for kf in KeyFam::menu(KEY_MFT_NAME.0, KEY_MFT_NAME.1) { if !thin_name(kf) { v.push(TmCase::Mft(MftShape::NameKey(kf))) } }
+        for kf in KeyFam::menu(KEY_MFT_HASH.0, KEY_MFT_HASH.1) {
+            let keep = match kf { KeyFam::LowAgree(k) | KeyFam::HighAgree(k) => [8, 16, 24].contains(&k), KeyFam::Stride(k, _) => k == 2 || k == 8, KeyFam::Mirror(_, _, neg) => !neg, KeyFam::Outer => true };
+            if keep && !thin_hash(kf) { v.push(TmCase::Mft(MftShape::HashKey(kf))) }
+        }
+    }
     v
 }
 
@@ -2305,6 +2533,19 @@ fn tm_run(env: &Env, case: TmCase, n: usize) -> (TmOps, bool) {
                 ip_accessors(&mut ops, &v4, true); ip_accessors(&mut ops, &v6, false); as_accessors(&mut ops, &asn);
             }
         }
+        TmCase::CertKeys(fam, kf) => {
+            let d = tm_cert_keys(env, fam, kf, n);
+            let c = timed_decode!("Cert::decode", Cert::decode(d.as_slice()).map_err(|e| e.to_string()));
+            tm_measure(&mut ops, "TbsCert::{v4,v6,as}_resources().to_blocks", || { std::hint::black_box((c.v4_resources().to_blocks().is_ok(), c.v6_resources().to_blocks().is_ok(), c.as_resources().to_blocks().is_ok())); });
+            tm_measure(&mut ops, "Cert::to_captured", || { std::hint::black_box(c.to_captured().len()); });
+            tm_measure(&mut ops, "Cert serde", || { if let Ok(s) = serde_json::to_string(&c) { std::hint::black_box(serde_json::from_str::<Cert>(&s).is_ok()); } });
+            tm_measure(&mut ops, "Cert::validate_ca_at", || { std::hint::black_box(c.clone().validate_ca_at(&env.issuers[0].0, false, t0v).is_ok()); });
+            match fam {
+                Fam::V4 => if let Ok(b) = c.v4_resources().to_blocks() { ip_accessors(&mut ops, &b, true) },
+                Fam::V6 => if let Ok(b) = c.v6_resources().to_blocks() { ip_accessors(&mut ops, &b, false) },
+                Fam::As => if let Ok(b) = c.as_resources().to_blocks() { as_accessors(&mut ops, &b) },
+            }
+        }
         TmCase::Rta(order) => {
             let att = tm_attestation(env, order, n);
             let d = e5_rta(&env.signer, &att, &[&env.fx.ee_cert_der], &[], &[2], true, None);
@@ -2349,8 +2590,11 @@ fn tm_run(env: &Env, case: TmCase, n: usize) -> (TmOps, bool) {
                     MftShape::CommonPrefix => format!("{pad}{i:08x}.roa"),
                     MftShape::CommonSuffix => format!("{i:08x}{pad}.roa"),
                     MftShape::SameNames => format!("{:08x}{pad}.roa", 7),
+                    // 32 hex digits spelling the 16-octet key, padded to the length of the ordinary names
+                    MftShape::NameKey(kf) => format!("{}{}.roa", hex_lower(&kf.make(&[0x5a; 16], KEY_MFT_NAME.1, i as u32)), &pad[..24]),
+                    MftShape::HashKey(_) => format!("{:08x}{pad}.roa", (i as u32).wrapping_mul(0x9e37_79b9)),
                 };
-                let hash = if shape == MftShape::SameHashes { vec![0x5a; 32] } else { signer::sha256(&(i as u32).to_be_bytes()) };
+                let hash = match shape { MftShape::SameHashes => vec![0x5a; 32], MftShape::HashKey(kf) => kf.make(&[0x5a; 32], KEY_MFT_HASH.1, i as u32), _ => signer::sha256(&(i as u32).to_be_bytes()) };
                 der::MftEntry { name: name.into_bytes(), hash_unused: 0, hash }
             }).collect();
             let econtent = der::manifest_content(None, &[5], der::gentime(civil(2023, 11, 14)), der::gentime(civil(2123, 1, 1)), der::OID_SHA256, &entries);
@@ -2373,7 +2617,11 @@ fn tm_run(env: &Env, case: TmCase, n: usize) -> (TmOps, bool) {
                 AspaShape::Consecutive => 100_000 + i,
                 AspaShape::Descending => 200_000 - 2 * i,
                 AspaShape::LowWindow => 0xabcd_0000 + i,
+                AspaShape::Key(Some(kf)) => key_value(&kf.make(&[0; 4], KEY_ASN.1, i as u32 + 1)),
+                AspaShape::Key(None) => 0x0100_0000 + 3 * i,
             }).collect();
+            // the key families in ascending order, as the profile wants a provider set
+            let provs = if matches!(shape, AspaShape::Key(_)) { let mut p = provs; p.sort_unstable(); p } else { provs };
             let econtent = der::aspa_content(Some(1), 64496, &provs);
             let d = e5_signed_object(&env.signer, der::OID_CT_ASPA, &econtent, &env.fx.ee_as_der, 2, vec![], true);
             let a = timed_decode!("Aspa::decode", Aspa::decode(d.as_slice(), true).map_err(|e| e.to_string()));
@@ -2390,7 +2638,10 @@ fn tm_run(env: &Env, case: TmCase, n: usize) -> (TmOps, bool) {
             let v4 = fam == Fam::V4;
             let (bits, plen) = if v4 { (32u8, 24u8) } else { (128u8, 56u8) };
             let order = match shape { RoaShape::Desc => Order::Desc, RoaShape::Zigzag => Order::Zigzag, _ => Order::Asc };
+            let key_base_v = key_base(fam);
             let addrs: Vec<der::RoaAddr> = order.perm(n).into_iter().map(|r| match shape {
+                // host prefixes (/32, /128) inside what the EE certificate covers, in the order of the counter
+                RoaShape::Key(kf) => der::roa_addr_from(match kf { Some(kf) => key_value(&kf.make(&key_base_v, key_dims_ip(fam).1, r as u32)), None => key_value(&key_base_v) + r as u128 }, bits, bits, if r % 2 == 0 { Some(bits as u128) } else { None }),
                 RoaShape::Same => der::roa_addr_from(tm_block(fam, Order::Asc, 3).0, plen, bits, Some(plen as u128)),
                 RoaShape::SameAddrAllLengths => { let l = plen + (r % (bits - plen + 1) as usize) as u8; der::roa_addr_from(tm_block(fam, Order::Asc, 3).0, l, bits, if r % 2 == 0 { Some(bits as u128) } else { None }) }
                 _ => der::roa_addr_from(tm_block(fam, Order::Asc, r).0, plen, bits, if r % 2 == 0 { Some(plen as u128) } else { None }),
@@ -2443,29 +2694,34 @@ fn tm_run(env: &Env, case: TmCase, n: usize) -> (TmOps, bool) {
 /// failures as (oracle, accessor, detail) and whether the crafted object decoded at the largest size.
 fn tm_judge(env: &Env, case: TmCase, thorough: bool, controls: &mut HashMap<String, Vec<(TmOps, bool)>>) -> (Vec<(&'static str, String, String)>, bool, u64) {
     let sizes = case.sizes(thorough);
+    let cpu_at_start = cpu_ns();
     let mut fails: Vec<(&'static str, String, String)> = Vec::new();
     let mut evals = 0u64;
     let mut table: Vec<(bool, Vec<(TmOps, bool)>)> = Vec::new();
     for (is_control, c) in [(false, case), (true, case.control())] {
         // the ordinary object of a kind is the same for all its crafted families: measured once per worker
-        if is_control { if let Some(rows) = controls.get(&c.desc()) { evals += rows.iter().map(|r| r.0.len() as u64).sum::<u64>(); table.push((true, rows.clone())); continue } }
+        // (once per ladder: the rows of crafted and ordinary object are compared position by position)
+        let ctl_key = format!("{} @ {:?}", c.desc(), sizes);
+        if is_control { if let Some(rows) = controls.get(&ctl_key) { evals += rows.iter().map(|r| r.0.len() as u64).sum::<u64>(); table.push((true, rows.clone())); continue } }
         let mut rows: Vec<(TmOps, bool)> = Vec::new();
         for (k, &n) in sizes.iter().enumerate() {
             let row = tm_run(env, c, n);
             evals += row.0.len() as u64;
             // once an operation is over a second, or has grown well above linear and by more than the
             // margin, the verdict is in: larger sizes would only cost time
-            let over = row.0.iter().any(|(name, r)| match r {
+            // (for an accessor the verdict needs the larger margin: it is in once the call is over a second)
+            let over = row.0.iter().enumerate().any(|(pos, (name, r))| match r {
                 Ok(ns) if *ns > 5 * TM_MARGIN_NS => true,
                 Ok(ns) if k > 0 => rows[k - 1].0.iter().find(|(n2, _)| n2 == name).and_then(|(_, r2)| r2.clone().ok()).map(|prev| {
                     let linear = prev.max(1_000) * (n as u64 * 1000 / sizes[k - 1] as u64) / 1000;
-                    *ns * 4 > linear * TM_GROWTH && *ns > linear + TM_MARGIN_NS }).unwrap_or(false),
+                    let margin = if tm_role(c, pos, name) == TmRole::Accessor { TM_RUNAWAY_NS } else { TM_MARGIN_NS };
+                    *ns * 4 > linear * TM_GROWTH && *ns > linear + margin }).unwrap_or(false),
                 _ => false,
             });
             rows.push(row);
             if over { break }
         }
-        if is_control { controls.insert(c.desc(), rows.clone()); }
+        if is_control { controls.insert(ctl_key, rows.clone()); }
         table.push((is_control, rows));
     }
     let ms = |ns: u64| format!("{:.2} ms", ns as f64 / 1e6);
@@ -2476,7 +2732,8 @@ fn tm_judge(env: &Env, case: TmCase, thorough: bool, controls: &mut HashMap<Stri
             for (pos, (name, r)) in ops.iter().enumerate() {
                 // the property bounds the time of the decoding entry points; what is done with the decoded
                 // value afterwards must not panic (and must return), its growth is recorded as an observation
-                let judged = pos == 0 && case.judged();
+                let role = tm_role(case, pos, name);
+                let judged = role == TmRole::Decode;
                 match r {
                     Err(p) => fails.push(("C04.time.panic", name.to_string(), format!("{who}, n={}: {p}", sizes[k]))),
                     Ok(t) => {
@@ -2484,6 +2741,10 @@ fn tm_judge(env: &Env, case: TmCase, thorough: bool, controls: &mut HashMap<Stri
                             let factor = (sizes[k] as u64 * 1000 / sizes[k - 1] as u64).max(1000);        // in thousandths
                             let linear = prev.max(1_000) * factor / 1000;
                             // "well above linear": more than TM_GROWTH/4 times what linear growth predicts, and by more than the margin
+                            if role == TmRole::Accessor && *t * 4 > linear * TM_GROWTH && *t > linear + TM_RUNAWAY_NS {
+                                fails.push(("C04.time.accessor_runaway", name.to_string(), format!("{who}: n={} takes {}, n={} takes {} of CPU time ({:.1}x the time for {:.1}x the size; linear growth would be {}, this is more than {} ms above it)",
+                                    sizes[k - 1], ms(prev), sizes[k], ms(*t), *t as f64 / prev.max(1) as f64, factor as f64 / 1000.0, ms(linear), TM_RUNAWAY_NS / 1_000_000)));
+                            }
                             if *t * 4 > linear * TM_GROWTH && *t > linear + TM_MARGIN_NS {
                                 if !judged { fails.push(("C04.time.observed", name.to_string(), format!("{who}: grows well above linear"))); }
                                 else { fails.push(("C04.time.growth", name.to_string(), format!("{who}: n={} takes {}, n={} takes {} of CPU time ({:.1}x the time for {:.1}x the size; linear growth would be {})",
@@ -2491,6 +2752,9 @@ fn tm_judge(env: &Env, case: TmCase, thorough: bool, controls: &mut HashMap<Stri
                             }
                         } }
                         if !*is_control { if let Some(ctl) = lookup(&table[1].1, k, name) {
+                            if role == TmRole::Accessor && *t > ctl.max(1_000) * TM_VS_CONTROL && *t > ctl + TM_RUNAWAY_NS {
+                                fails.push(("C04.time.accessor_runaway", name.to_string(), format!("n={}: on the crafted object the call takes {} of CPU time, on an ordinary object of the same size and count {} ({:.0}x, {} more)", sizes[k], ms(*t), ms(ctl), *t as f64 / ctl.max(1) as f64, ms(*t - ctl))));
+                            }
                             if *t > ctl.max(1_000) * TM_VS_CONTROL && *t > ctl + TM_MARGIN_NS {
                                 if !judged { fails.push(("C04.time.observed", name.to_string(), "crafted object: far slower than on the ordinary object".to_string())); }
                                 else { fails.push(("C04.time.vs_control", name.to_string(), format!("n={}: the crafted object takes {}, an ordinary object of the same size {} ({:.0}x)", sizes[k], ms(*t), ms(ctl), *t as f64 / ctl.max(1) as f64))); }
@@ -2507,6 +2771,7 @@ fn tm_judge(env: &Env, case: TmCase, thorough: bool, controls: &mut HashMap<Stri
             text.push_str(&format!("{} {} n={} decoded={} {}\n", case.desc(), if *is_control { "control" } else { "crafted" }, sizes[k], ok,
                 ops.iter().map(|(n, r)| format!("{n}={}", match r { Ok(t) => ms(*t), Err(_) => "panic".into() })).collect::<Vec<_>>().join("; ")));
         } }
+        text.push_str(&format!("{} cpu-of-the-whole-case={}\n", case.desc(), ms(cpu_ns().saturating_sub(cpu_at_start))));
         if let Ok(mut f) = std::fs::OpenOptions::new().create(true).append(true).open(path) { let _ = f.write_all(text.as_bytes()); }
     }
     let decoded = table[0].1.last().map(|(_, ok)| *ok).unwrap_or(false);
@@ -3327,14 +3592,14 @@ impl Worker {
                 }
             }
             SpaceId::Time => {
-                let cases = tm_cases();
+                let cases = tm_cases(self.thorough);
                 for idx in t.lo..t.hi.min(cases.len() as u64) {
                     let case = cases[idx as usize];
                     let (fails, decoded, evals) = tm_judge(&self.env, case, self.thorough, &mut self.tm_controls);
                     res.evals += evals;
                     if decoded { res.nontrivial += 1 }
                     let observed = fails.iter().any(|f| f.0 == "C04.time.observed");
-                    let class = if fails.iter().any(|f| f.0 != "C04.time.fixture" && f.0 != "C04.time.observed") { "the decoder grows faster than its input or is far slower than on the ordinary object, or an operation panics" }
+                    let class = if fails.iter().any(|f| f.0 != "C04.time.fixture" && f.0 != "C04.time.observed") { "the decoder grows faster than its input or is far slower than on the ordinary object, an accessor runs away, or an operation panics" }
                         else if !case.judged() { if observed { "not one of the property's decoding entry points: measured only; some operation seen to grow well above linear" } else { "not one of the property's decoding entry points: measured only; every operation near-linear" } }
                         else if !decoded { "rejected by the decoder; the rejection itself near-linear" }
                         else if observed { "decode near-linear and close to the ordinary object; an operation on the decoded value seen to grow well above linear (recorded, not judged)" }
@@ -3735,7 +4000,7 @@ fn describe_case(env: &Env, thorough: bool, t: &Task) -> (String, String, Vec<u8
             }
         }
         SpaceId::SelfTest => ("selftest".into(), format!("kind={}", t.seed), vec![]),
-        SpaceId::Time => ("-".into(), tm_cases().get(idx as usize).map(|c| c.desc()).unwrap_or_else(|| "out of range".into()), vec![]),
+        SpaceId::Time => ("-".into(), tm_cases(thorough).get(idx as usize).map(|c| c.desc()).unwrap_or_else(|| "out of range".into()), vec![]),
         SpaceId::RtaMx => ("-".into(), mx_cfgs(thorough).get(idx as usize).map(|(c, _)| c.desc()).unwrap_or_else(|| "out of range".into()), vec![]),
         SpaceId::Seq => { let s = &env.seeds[t.seed]; (s.name.clone(), "call sequences".into(), s.bytes.clone()) }
     }
@@ -3769,7 +4034,7 @@ fn main() {
     ctx.assume("aws-lc (RSA/ECDSA, SHA) and the operating system's process isolation are trusted");
     ctx.assume("'time or memory beyond a fixed multiple of the input' is decided as counted quantities: Source calls <= 64n+1024 per decode, iterators <= n items, worker address space <= 2 GiB, a wall budget per batch of cases");
     ctx.assume("inputs further than two structural deviations from every seed and longer than 3 octets are not explored");
-    ctx.assume("the time clause binds the decoding entry points; accessors, iterators and validation of a decoded value are held to panic-freedom and to returning (their growth with the input is measured and recorded, not judged)");
+    ctx.assume("the time clause binds the decoding entry points; accessors, iterators and validation of a decoded value are held to panic-freedom and to returning (their growth with the input is measured and recorded, not judged); an accessor, iterator, lookup or re-encoding the property names is taken not to return when it needs more than 20x the CPU time of the same call on an ordinary object of the same size and count and more than a second longer");
     let t_start = Instant::now();
     // the fixtures are built with the library under test: guard against panics and stalls
     let env = {
@@ -3857,7 +4122,13 @@ fn main() {
     // worker self-test: the machinery must find a planted abort / OOM / hang / stack overflow
     for kind in 0..4usize { plan.add_range(SpaceId::SelfTest, kind, Ep::Cert, 64, 64) }
     // the time clause first (its cases are the longest single tasks), then the RTA matrix and the call sequences
-    plan.add_range(SpaceId::Time, 0, Ep::Crl, tm_cases().len() as u64, 1);
+    {
+        // the key families two to a task (neighbours share their ordinary object, which a worker measures once)
+        let (all, first_key) = (tm_cases(thorough).len() as u64, tm_cases(thorough).iter().position(|c| c.key_dims().is_some()).unwrap_or(0) as u64);
+        plan.add_range(SpaceId::Time, 0, Ep::Crl, first_key, 1);
+        let mut lo = first_key;
+        while lo < all { let hi = (lo + 2).min(all); plan.tasks.push(Task { id: plan.next_id, sp: SpaceId::Time, seed: 0, ep: Ep::Crl, lo, hi }); plan.next_id += 1; lo = hi; }
+    }
     let n_mx = mx_cfgs(thorough).len() as u64;
     plan.add_range(SpaceId::RtaMx, 0, Ep::RtaS, n_mx, 192);
     let seq_eps = |k: Kind| -> &'static [Ep] { match k {
@@ -4035,10 +4306,10 @@ fn main() {
         if hung > 0 { sp.evals(hung); for ep in hung_eps { sp.outcome(&format!("worker stalled in the sweep [{}/{}]", ep.name(), ep.mode())) } }
     }
     {
-        let cases = tm_cases();
+        let cases = tm_cases(thorough);
         let sp = finish_space(SpaceId::Time, "time.growth",
-            &format!("the time clause, measured as CPU time of the calling thread (clock_gettime(CLOCK_THREAD_CPUTIME_ID), best of three runs): for every crafted family the object is built with n elements for each n of a 1:4 ladder (1 024, 4 096, 16 384; CRLs also 65 536; thorough one step further) next to an ordinary object of the same kind, size and count, and the decode and every accessor are timed one by one. Families: resource block lists of n disjoint blocks (IPv4 /24, IPv6 /56, AS ranges) in descending, even-then-odd, zigzag, highest-first, stride-permuted, adjacent-descending and overlapping-descending order through every way in: FromStr, Deserialize, DER take_from, FromIterator, the builders, ResourceSet::from_strs, the three extensions of a certificate (then validate_ca_at), the attested resources of an RTA (then rta::Validation); set operations on two lists that interleave / are identical / nest / one covers all; CRLs whose n serial numbers are equal in all octets but a four-octet window at offset 1, 4, 8, 12 or 16 (rest 00 or A5) with decode, iteration, lookups without cache, cache_serials, 64 cached lookups of listed and of unlisted serials of the same family, CrlStore with caching, re-encoding, serde; manifests whose n names share a 48-octet prefix / suffix, are all equal, or whose hashes are all equal; ASPAs whose providers are multiples of 2^16 / 2^8, consecutive, descending or share their high octets; ROAs with n prefixes descending, zigzag, all equal, one address at every length, and n prefixes under an EE certificate with n blocks. TALs with n URIs (schemes alternating, n comment lines, CR LF, 400-octet lines, the key in one-character lines); signed protocol messages whose embedded CRL lists n such serial numbers. JUDGED is the first operation of each family where it is one of the decoding entry points the property names (Cert, Crl, Manifest, Roa, Aspa, Rta, Tal::read_named, SignedMessage::decode, strict) with everything it does inside, e.g. collecting the resource blocks: C04.time.growth = it takes more than {}x the time for 4x the size AND more than {} ms above linear growth (crafted and ordinary object alike); C04.time.vs_control = more than {}x the ordinary object of the same size AND more than {} ms above it. Everything called on the decoded value (and FromStr / Deserialize / FromIterator / builders / set operations, which are no decoding entry points) is held to C04.time.panic and to returning at all (worker wall budget); where its growth crosses the same thresholds that is recorded under growth_observed_but_not_judged. Non-trivial = crafted families that decode at the largest size",
-                TM_GROWTH, TM_MARGIN_NS / 1_000_000, TM_VS_CONTROL, TM_MARGIN_NS / 1_000_000),
+            &format!("the time clause, measured as CPU time of the calling thread (clock_gettime(CLOCK_THREAD_CPUTIME_ID), best of three runs): for every crafted family the object is built with n elements for each n of a 1:4 ladder (1 024, 4 096, 16 384; CRLs also 65 536; thorough one step further) next to an ordinary object of the same kind, size and count, and the decode and every accessor are timed one by one. Families: resource block lists of n disjoint blocks (IPv4 /24, IPv6 /56, AS ranges) in descending, even-then-odd, zigzag, highest-first, stride-permuted, adjacent-descending and overlapping-descending order through every way in: FromStr, Deserialize, DER take_from, FromIterator, the builders, ResourceSet::from_strs, the three extensions of a certificate (then validate_ca_at), the attested resources of an RTA (then rta::Validation); set operations on two lists that interleave / are identical / nest / one covers all; CRLs whose n serial numbers are equal in all octets but a four-octet window at offset 1, 4, 8, 12 or 16 (rest 00 or A5) with decode, iteration, lookups without cache, cache_serials, 64 cached lookups of listed and of unlisted serials of the same family, CrlStore with caching, re-encoding, serde; manifests whose n names share a 48-octet prefix / suffix, are all equal, or whose hashes are all equal; ASPAs whose providers are multiples of 2^16 / 2^8, consecutive, descending or share their high octets; ROAs with n prefixes descending, zigzag, all equal, one address at every length, and n prefixes under an EE certificate with n blocks. TALs with n URIs (schemes alternating, n comment lines, CR LF, 400-octet lines, the key in one-character lines); signed protocol messages whose embedded CRL lists n such serial numbers. KEY FAMILIES, for every collection of keys a decoder or accessor builds, looks up or orders (the 20-octet serial numbers of a CRL, also inside a signed message; the names (16-octet key in hex) and the 32-octet hashes of a manifest; the providers of an ASPA; host prefixes /32 and /128 of a ROA; single addresses and AS numbers in the resource extensions of a certificate): n pairwise different keys that AGREE IN A CHOSEN SET OF OCTETS, the counter spread bit by bit over all others — agree in the low k octets and differ in every octet above (k on the ladder 1, 2, 4, 8, 12, 16, 24, 28 as the length allows), agree in the high k octets, differ only in the octets at positions = r mod k (k = 2, 3, 4, 8, every r that leaves at least 3 positions, 2 for 4-octet keys), agree in the middle (differ in the two outermost octets at either end), and the counter written twice one / two / three words apart, the second time as it is or negated (a word-wise XOR or sum sees one value); the ladder of a family ends where it runs out of keys; the quick tier runs the serial-number, file-name and hash menus on a coarser ladder of k (every kind of family present), the thorough tier all of them; ROA host prefixes go one rung further (65 536) for four IPv6 families in the quick tier and for all in the thorough tier. JUDGED is the first operation of each family where it is one of the decoding entry points the property names (Cert, Crl, Manifest, Roa, Aspa, Rta, Tal::read_named, SignedMessage::decode, strict) with everything it does inside, e.g. collecting the resource blocks: C04.time.growth = it takes more than {}x the time for 4x the size AND more than {} ms above linear growth (crafted and ordinary object alike); C04.time.vs_control = more than {}x the ordinary object of the same size AND more than {} ms above it. ProvisioningCms::decode on the same bytes is judged alike. The accessors, iterators, lookups and re-encodings of the decoded value (Crl::cache_serials, cached and uncached contains, CrlStore push/get, iter, iter_uris, iter_origins, to_set, to_blocks, asn_count, contains/union/difference of the decoded blocks, to_captured, encode_ref, serde) are held to C04.time.panic and to coming back: C04.time.accessor_runaway = the call takes more than {}x the CPU time of the same call on the ordinary object of the same size and count AND more than {} ms longer, or (either object) more than {}x the time for 4x the size AND more than {} ms above linear growth — one second for an input of at most a few megabytes that an object of the same size answers in milliseconds is the call not returning in any time commensurate with its input; a slow-down below that is recorded, not judged. Validation against an issuer (validate_*, process, rta::Validation), RtaBuilder, and FromStr / Deserialize / FromIterator / builders / set operations (no decoding entry points) are held to C04.time.panic and to returning at all (worker wall budget); where growth crosses the decoders' thresholds without being judged that is recorded under growth_observed_but_not_judged. Non-trivial = crafted families that decode at the largest size",
+                TM_GROWTH, TM_MARGIN_NS / 1_000_000, TM_VS_CONTROL, TM_MARGIN_NS / 1_000_000, TM_VS_CONTROL, TM_RUNAWAY_NS / 1_000_000, TM_GROWTH, TM_RUNAWAY_NS / 1_000_000),
             true, &format!("{} crafted families x the size ladder x every accessor of the type", cases.len()), None);
         sp.set("families", json!(cases.iter().map(|c| c.desc()).collect::<Vec<_>>()));
         sp.set("growth_observed_but_not_judged", json!(per.get(&SpaceId::Time).map(|r| r.notes.keys().cloned().collect::<Vec<_>>()).unwrap_or_default()));
